@@ -2,6 +2,7 @@
 from __future__ import annotations
 
 import itertools
+import json
 import random
 import shutil
 import tempfile
@@ -22,7 +23,7 @@ RULE = ('case = 2-3 concurrent callers (get / get_or_compute / forced get_or_com
         'complete result of one computation for the key (or the initial entry); no call raises; at quiescence the file parses to a complete entry for the key; '
         'an unforced get_or_compute that starts when a complete entry is stored and that no write overlaps does not invoke its computer; get computes nothing. '
         'non-trivial = schedule with >=1 context switch between the first and last step of some call; distinct = hash(config, choice sequence)')
-REQUIRED = ['schedules', 'exhaustive_pairs', 'context_switch_schedules', 'reads_overlapping_writes', 'truncate_window_schedules', 'lock_blocked_events',
+REQUIRED = ['process_level_schedules', 'schedules', 'exhaustive_pairs', 'context_switch_schedules', 'reads_overlapping_writes', 'truncate_window_schedules', 'lock_blocked_events',
             'three_caller_schedules', 'all_lines_schedules']
 ASSUMPTIONS = ['gate granularity = statements of cache.py touching shared state + lock and computer events; interleavings inside one write() call are not split',
                'get may answer NO_VALUE while nothing is stored or a write overlaps it; callers that both started before either returned may both compute']
@@ -63,6 +64,28 @@ def run_schedule(cfg, chooser, gate_all=False):
     produced = []          # canonical forms of complete values ever handed to the cache
     hist = {'calls': [], 'cfg': cfg}
     orig_lock = tc.FileLock
+    if cfg.get('processes'):
+        # callers are forked OS processes (flock between processes), gates are pipe round-trips
+        from .. import sched_proc
+        shared = cls(tmp / 'cache')
+        if cfg['present']:
+            tok = uniq.next('init')
+            v0 = make_value(kind, tok)
+            produced.append(tcanon(v0))
+            shared.get_or_compute(KEY, lambda: v0)
+        hist = sched_proc.run_schedule_processes(cfg, chooser, tmp / 'cache', KEY, gate_all=gate_all)
+        hist['produced'] = produced + [json.loads(json.dumps(x)) for x in hist['produced']]
+        for c in hist['calls']:
+            if c['result'] not in (None, 'NO_VALUE'):
+                c['result'] = json.loads(json.dumps(c['result']))
+        hist['produced'] = [json.loads(json.dumps(x)) for x in hist['produced']]
+        try:
+            fp = shared.filepath(KEY)
+            hist['final'] = json.loads(json.dumps(tcanon(shared.load_value(fp, KEY)))) if fp.exists() else 'ABSENT'
+        except BaseException as e:  # noqa
+            hist['final'] = f'UNREADABLE {type(e).__name__}: {e}'[:200]
+        shutil.rmtree(tmp, ignore_errors=True)
+        return hist
     ctl = sched.Controller(chooser, gate_all_lines=gate_all)
     try:
         shared = cls(tmp / 'cache')
@@ -294,6 +317,8 @@ def run_case(case) -> CaseResult:
                 res.count('three_caller_schedules')
             if case.get('gate_all'):
                 res.count('all_lines_schedules')
+            if cfg.get('processes'):
+                res.count('process_level_schedules')
             if res.violations:
                 break
         res.sample = {'cfg': cfg, 'mode': case['mode'], 'n': case['n']}
@@ -313,6 +338,16 @@ def cases(tier, seed):
         ops = [rng.choice(OPS) for _ in range(3)]
         cfg = {'ops': ops, 'present': rng.random() < 0.5, 'same_object': rng.random() < 0.5, 'cache': rng.choice(caches)}
         yield {'mode': rng.choice(['random', 'pct']), 'cfg': cfg, 'n': 25, 'seed': rng.randrange(1 << 30), 'gate_all': i % 3 == 0}
+    # process-level variant: callers are OS processes
+    npr = 24 if tier == 'quick' else 600
+    for i in range(npr):
+        ops = [rng.choice(OPS) for _ in range(rng.choice([2, 2, 3]))]
+        cfg = {'ops': ops, 'present': rng.random() < 0.5, 'same_object': False, 'cache': rng.choice(caches), 'processes': True}
+        yield {'mode': rng.choice(['random', 'pct']), 'cfg': cfg, 'n': 12, 'seed': rng.randrange(1 << 30), 'gate_all': False}
+    if tier == 'thorough':
+        for a, b in itertools.combinations_with_replacement(OPS, 2):
+            for present in (True, False):
+                yield {'mode': 'dfs', 'cfg': {'ops': [a, b], 'present': present, 'same_object': False, 'cache': 'json', 'processes': True}, 'cap': 20000}
     for i in range(n3 // 2):
         ops = [rng.choice(OPS) for _ in range(2)]
         cfg = {'ops': ops, 'present': rng.random() < 0.5, 'same_object': rng.random() < 0.5, 'cache': rng.choice(caches)}
